@@ -8,15 +8,18 @@ EXPLANATION = (
     "exist for in-memory, escape-free input). Every call made by local code into serde's decoding traits "
     "is enumerated with its resolved generic arguments; a borrowed str/bytes/Path request, a wire type with a "
     "reference field, or a visitor that only implements the borrowed callbacks is a violation. The public "
-    "channel helpers must all defer to the same `T: Deserialize` implementation.")
+    "channel helpers must all defer to the same `T: Deserialize` implementation. D4: `SeqAccess/MapAccess::size_hint` is the one "
+    "capability that differs between JSON front ends (none from text, exact from a tree or from serde's buffered content); a forward "
+    "flow of every such result in local code must end in capacity reservations, never in a comparison, a branch or another call.")
 DECIDED = ["D1 no borrowed decoding request in local Deserialize/Visitor code",
            "D1b no reference-typed field in a type that implements Deserialize",
            "D2 no visitor with visit_borrowed_* but without visit_*",
-           "D3 public channel helpers are thin wrappers over serde_json::{from_reader,from_slice,from_value,from_str} for the caller's T"]
+           "D3 public channel helpers are thin wrappers over serde_json::{from_reader,from_slice,from_value,from_str} for the caller's T",
+           "D4 a size hint (absent from text parsers, exact from trees and buffered content) reaches capacity reservations only"]
 UNDECIDED = ["serde_json's own equivalence of from_str/from_slice/from_reader/from_value for owned types (dependency contract)"]
 TRUSTED = ["serde / serde_json: owned types decode identically through every Deserializer front end"]
 ASSUMPTIONS = ["serde_json hands out borrowed strings only for escape-free in-memory input (documented behaviour)"]
-FLOORS = {"C17/D1": 60, "C17/D2": 20, "C17/D3": 3, "C17/D1b": 20}
+FLOORS = {"C17/D1": 60, "C17/D2": 20, "C17/D3": 3, "C17/D1b": 20, "C17/D4": 1}
 
 DECODE_TRAITS = {"serde::Deserialize", "serde::de::SeqAccess", "serde::de::MapAccess", "serde::de::EnumAccess",
                  "serde::de::VariantAccess", "serde::de::DeserializeSeed", "serde::de::DeserializeOwned"}
@@ -124,3 +127,99 @@ def run(ctx):
             else:
                 ctx.bad("C17/D3", key, "channel helper is not a thin wrapper: serde_json calls %s, local calls %s" % (
                     sorted(names), [callee_name(t) for t in local_calls]), f["at"])
+    # ---- D4: channel capabilities
+    check_size_hints(ctx, "C17/D4")
+
+
+# ---- D4: channel capabilities ------------------------------------------------------------------------------------------
+CAPACITY_SINKS = {"std::vec::Vec::with_capacity", "std::vec::Vec::reserve", "std::vec::Vec::reserve_exact", "std::string::String::with_capacity",
+                  "std::collections::HashMap::with_capacity", "std::collections::HashSet::with_capacity", "std::collections::VecDeque::with_capacity",
+                  "std::collections::HashMap::reserve", "std::collections::HashSet::reserve"}
+HINT_PASS = {"std::option::Option::unwrap_or", "std::option::Option::unwrap_or_default", "std::option::Option::map", "std::cmp::min", "std::cmp::Ord::min",
+             "core::num::saturating_add", "core::num::saturating_sub", "std::ops::Try::branch", "std::option::Option::unwrap_or_else"}
+
+
+def size_hint_misuse(fx, f):
+    """Forward flow of every `SeqAccess/MapAccess::size_hint()` result in f: text parsers give no hint, tree and buffered
+    deserializers give the exact length, so anything but a capacity reservation that depends on it differs between channels.
+    -> [(what, at)]"""
+    from ..core import Body, op_place
+    from ..guards import body_of
+    b = body_of(fx, f["key"])
+    seeds = [(i, t) for (i, t) in b.calls() if norm(t.get("trait")) in ("serde::de::SeqAccess", "serde::de::MapAccess") and (callee_name(t) or "").endswith("::size_hint")]
+    if not seeds:
+        return None
+    tainted = {t["dst"]["l"] for (_i, t) in seeds}
+    out = []
+    changed = True
+    flagged = set()
+    while changed:
+        changed = False
+        for i in sorted(b.reach):
+            blk = b.blocks[i]
+            for st in blk["stmts"]:
+                if st["k"] != "assign":
+                    continue
+                rv = st["rv"]
+                ops = []
+                if rv["k"] in ("use", "cast", "unop"):
+                    ops = [rv.get("op") or rv.get("a")]
+                elif rv["k"] in ("ref", "rawptr", "discr", "len"):
+                    ops = [{"copy": rv["place"]}] if "place" in rv else []
+                elif rv["k"] == "binop":
+                    ops = [rv["a"], rv["b"]]
+                elif rv["k"] == "agg":
+                    ops = rv["ops"]
+                hit = any(op_place(o) is not None and op_place(o)["l"] in tainted for o in ops if o)
+                if not hit:
+                    continue
+                if rv["k"] == "discr":
+                    continue            # presence of a hint (Some/None) may select between two ways of reserving
+                if rv["k"] == "binop" and rv["op"] in ("Eq", "Ne", "Lt", "Le", "Gt", "Ge", "Cmp") and (i, "cmp") not in flagged:
+                    flagged.add((i, "cmp"))
+                    out.append(("the size hint is compared (%s)" % rv["op"], st.get("at") or b.at(i)))
+                if st["dst"]["l"] not in tainted:
+                    tainted.add(st["dst"]["l"])
+                    changed = True
+            t = blk["term"]
+            if not t:
+                continue
+            if t["k"] == "call":
+                if any(op_place(a) is not None and op_place(a)["l"] in tainted for a in t["args"]):
+                    n = callee_name(t) or ""
+                    if n in CAPACITY_SINKS:
+                        continue
+                    if n in HINT_PASS or n.endswith("::clone") or n.endswith("::from") or n.endswith("::into"):
+                        if t["dst"]["l"] not in tainted:
+                            tainted.add(t["dst"]["l"])
+                            changed = True
+                        continue
+                    if (i, "call") not in flagged:
+                        flagged.add((i, "call"))
+                        out.append(("the size hint flows into %s" % n, t["at"]))
+                    if t["dst"]["l"] not in tainted:
+                        tainted.add(t["dst"]["l"])
+                        changed = True
+            elif t["k"] == "switch":
+                p = op_place(t.get("discr"))
+                if p is not None and p["l"] in tainted and (i, "sw") not in flagged:
+                    d = b.single_def(p["l"])
+                    if d and d.kind == "assign" and d.node["rv"]["k"] == "discr":
+                        continue
+                    flagged.add((i, "sw"))
+                    out.append(("control flow depends on the size hint", b.at(i)))
+    return out
+
+
+def check_size_hints(ctx, RULE):
+    fx = ctx.fx
+    n = 0
+    for f in fx.doc["fns"]:
+        r = size_hint_misuse(fx, f)
+        if r is None:
+            continue
+        n += 1
+        ctx.touch_fn(f)
+        ctx.inst(RULE, "%s uses size_hint only to reserve capacity" % _clean(f["path"]), not r,
+                 "; ".join("%s @ %s" % x for x in r) if r else "the hint reaches capacity reservations only", f["at"])
+    ctx.ok(RULE, "size_hint inventory", "%d local function(s) ask a SeqAccess/MapAccess for its size hint; each judged above" % n)
